@@ -407,6 +407,7 @@ def analyse() -> Builder:
     key = str(hash(src))
     if _CACHE.get('key') == key:
         return _CACHE['val']
+    T.analyse()          # loads the number-format tables and the inlinable locals that flatten/classify use
     funcs = T._funcs(ast.parse(src))
     b = Builder(funcs)
     _CACHE.update(key=key, val=b)
@@ -453,8 +454,110 @@ def row_writers(b: Builder) -> list[tuple[str, str]]:
     return out
 
 
+class _Sym:
+    """Tiny symbolic evaluator for the separator logic of Output.as_keyvalue / Output.parse.  One instance per *world*
+    (as_keyvalue: self.comma_sep true/false; parse: the ESC separator occurs in the value / does not).  Values:
+    ('bool', b) ('str', s) ('value',) = prop.value, ('split', ch) = prop.value.split(ch), None = unknown.
+    Statements: simple assignments to names and if/else (the branch whose test evaluates to a known bool is followed;
+    an unknown test fails closed).  Anything else -> TranslateError."""
+
+    def __init__(self, where: str, esc: str, atoms: dict[str, tuple], has_esc: bool | None = None) -> None:
+        self.where, self.esc, self.atoms, self.has_esc = where, esc, atoms, has_esc
+        self.env: dict[str, tuple | None] = {}
+
+    def ev(self, e: ast.AST) -> tuple | None:
+        src = ast.unparse(e)
+        if src in self.atoms:
+            return self.atoms[src]
+        if isinstance(e, ast.Constant):
+            if isinstance(e.value, bool):
+                return ('bool', e.value)
+            if isinstance(e.value, str):
+                return ('str', e.value)
+            return None
+        if isinstance(e, ast.Name):
+            if e.id in self.env:
+                return self.env[e.id]
+            if e.id == 'OUTPUT_SEP':
+                return ('str', self.esc)
+            return None
+        if isinstance(e, ast.Attribute):
+            if e.attr == 'SEP' and isinstance(e.value, ast.Name) and e.value.id in ('self', 'cls', 'Output'):
+                return ('str', self.esc)         # class attribute SEP = OUTPUT_SEP (checked by output_seps)
+            if e.attr == 'value' and isinstance(e.value, ast.Name) and e.value.id == 'prop':
+                return ('value',)
+            return None
+        if isinstance(e, ast.UnaryOp) and isinstance(e.op, ast.Not):
+            v = self.ev(e.operand)
+            return ('bool', not v[1]) if v and v[0] == 'bool' else None
+        if isinstance(e, ast.BoolOp):
+            vs = [self.ev(x) for x in e.values]
+            if any(v is None or v[0] != 'bool' for v in vs):
+                return None
+            bs = [v[1] for v in vs]       # type: ignore[index]
+            return ('bool', all(bs) if isinstance(e.op, ast.And) else any(bs))
+        if isinstance(e, ast.IfExp):
+            t = self.ev(e.test)
+            if not t or t[0] != 'bool':
+                return None
+            return self.ev(e.body if t[1] else e.orelse)
+        if isinstance(e, ast.Compare) and len(e.ops) == 1:
+            a, b = self.ev(e.left), self.ev(e.comparators[0])
+            op = e.ops[0]
+            if isinstance(op, (ast.In, ast.NotIn)) and b == ('value',) and a and a[0] == 'str' and self.has_esc is not None:
+                if a[1] != self.esc:
+                    return None                # membership of another character: not decided by the world
+                return ('bool', self.has_esc if isinstance(op, ast.In) else not self.has_esc)
+            if isinstance(op, (ast.Is, ast.IsNot, ast.Eq, ast.NotEq)) and a and b and a[0] == b[0] == 'bool':
+                same = a[1] == b[1]
+                return ('bool', same if isinstance(op, (ast.Is, ast.Eq)) else not same)
+            return None
+        if isinstance(e, ast.Call) and isinstance(e.func, ast.Attribute) and e.func.attr == 'split' and len(e.args) == 1 \
+                and not e.keywords and self.ev(e.func.value) == ('value',):
+            ch = self.ev(e.args[0])
+            return ('split', ch[1]) if ch and ch[0] == 'str' and len(ch[1]) == 1 else None
+        if isinstance(e, ast.Call) and ast.unparse(e.func) == 'bool' and len(e.args) == 1:
+            v = self.ev(e.args[0])
+            return v if v and v[0] == 'bool' else None
+        return None
+
+    def run(self, stmts: list[ast.stmt]) -> None:
+        for s in stmts:
+            if isinstance(s, ast.Expr) and isinstance(s.value, ast.Constant):
+                continue
+            if isinstance(s, (ast.Assign, ast.AnnAssign)):
+                tg = s.targets if isinstance(s, ast.Assign) else [s.target]
+                if s.value is None:
+                    continue
+                if len(tg) == 1 and isinstance(tg[0], ast.Name):
+                    self.env[tg[0].id] = self.ev(s.value)
+                    continue
+                if len(tg) == 1 and isinstance(tg[0], ast.Tuple) and isinstance(s.value, ast.Tuple) \
+                        and len(tg[0].elts) == len(s.value.elts) and all(isinstance(t, ast.Name) for t in tg[0].elts):
+                    vals = [self.ev(v) for v in s.value.elts]
+                    for t, v in zip(tg[0].elts, vals):
+                        self.env[t.id] = v        # type: ignore[attr-defined]
+                    continue
+                raise TranslateError(f'{self.where}:{s.lineno}: assignment shape in the separator logic')
+            if isinstance(s, ast.If):
+                t = self.ev(s.test)
+                if not t or t[0] != 'bool':
+                    raise TranslateError(f'{self.where}:{s.lineno}: test `{ast.unparse(s.test)}` is not decided by the separator in use')
+                self.run(s.body if t[1] else s.orelse)
+                continue
+            raise TranslateError(f'{self.where}:{s.lineno}: statement {type(s).__name__} in the separator logic')
+
+
+def _prefix_until(stmts: list[ast.stmt], stop: type) -> tuple[list[ast.stmt], ast.stmt]:
+    for i, s in enumerate(stmts):
+        if isinstance(s, stop):
+            return stmts[:i], s
+    raise TranslateError(f'no {stop.__name__} statement found')
+
+
 def output_seps(tree: ast.Module, funcs: dict[str, ast.FunctionDef]) -> dict:
-    """Separator characters of Output.as_keyvalue / Output.parse and the order of the fields."""
+    """Separator characters of Output.as_keyvalue / Output.parse and the order of the fields.  The separator logic of
+    both methods is *evaluated* (class _Sym) in the two possible worlds, not matched textually."""
     esc = None
     for n in tree.body:
         tg = n.targets[0] if isinstance(n, ast.Assign) else n.target if isinstance(n, ast.AnnAssign) else None
@@ -466,17 +569,27 @@ def output_seps(tree: ast.Module, funcs: dict[str, ast.FunctionDef]) -> dict:
                 esc = int(v.args[0].value)
     if esc is None:
         raise TranslateError('OUTPUT_SEP: a one-character constant is expected')
+    # class attribute Output.SEP must be OUTPUT_SEP
+    ocls = next((n for n in tree.body if isinstance(n, ast.ClassDef) and n.name == 'Output'), None)
+    sep_attr = [n for n in (ocls.body if ocls else []) if isinstance(n, (ast.Assign, ast.AnnAssign))
+                and ast.unparse(n.targets[0] if isinstance(n, ast.Assign) else n.target) == 'SEP']
+    if len(sep_attr) != 1 or sep_attr[0].value is None or ast.unparse(sep_attr[0].value) != 'OUTPUT_SEP':
+        raise TranslateError('Output.SEP = OUTPUT_SEP expected')
     kv = funcs['Output.as_keyvalue']
-    sep_def = [n for n in ast.walk(kv) if isinstance(n, ast.Assign) and ast.unparse(n.targets[0]) == 'sep']
-    if len(sep_def) != 1 or not isinstance(sep_def[0].value, ast.IfExp):
-        raise TranslateError('Output.as_keyvalue: sep = A if self.comma_sep else B expected')
-    ie = sep_def[0].value
-    if ast.unparse(ie.test) != 'self.comma_sep' or not (isinstance(ie.body, ast.Constant) and isinstance(ie.body.value, str) and len(ie.body.value) == 1) \
-            or ast.unparse(ie.orelse) not in ('self.SEP', 'OUTPUT_SEP'):
-        raise TranslateError(f'Output.as_keyvalue: separator choice {ast.unparse(ie)}')
-    w_comma = ord(ie.body.value)
-    rets = [n for n in ast.walk(kv) if isinstance(n, ast.Return) and n.value is not None]
-    pieces = T.flatten('Output.as_keyvalue', rets[0].value)
+    pre, ret = _prefix_until(kv.body, ast.Return)
+    sepnames = T.sep_locals(kv)
+    if len(sepnames) != 1:
+        raise TranslateError(f'Output.as_keyvalue: one separator variable expected, found {sorted(sepnames)}')
+    wsep = {}
+    for comma in (True, False):
+        sy = _Sym('Output.as_keyvalue', chr(esc), {'self.comma_sep': ('bool', comma)})
+        sy.run(pre)
+        v = sy.env.get(next(iter(sepnames)))
+        if not v or v[0] != 'str' or len(v[1]) != 1:
+            raise TranslateError('Output.as_keyvalue: the separator is not a known character')
+        wsep[comma] = ord(v[1])
+    w_comma, w_esc = wsep[True], wsep[False]
+    pieces = T.flatten('Output.as_keyvalue', ret.value)       # type: ignore[attr-defined]
     r = T._parse_line('Output.as_keyvalue', T._split_lines(pieces)[0])
     if r[0] != 'kv':
         raise TranslateError('Output.as_keyvalue: not a keyvalue line')
@@ -489,40 +602,77 @@ def output_seps(tree: ast.Module, funcs: dict[str, ast.FunctionDef]) -> dict:
             cur.append(p.field if p.kind == 'ip' else 'lit:' + p.text)
     worder.append(cur)
     canon = {'self.target': 'target', 'self.exp_in()': 'input', 'self.params': 'params', 'self.delay': 'delay', 'self.times': 'times'}
-    if any(len(x) != 1 or x[0] not in canon for x in worder):
+
+    def canon_of(x: str) -> str | None:
+        for k, v in canon.items():
+            if x == k or re.fullmatch(r'[A-Za-z_\.]+\(' + re.escape(k) + r'\)', x):      # e.g. conv_kv(self.delay)
+                return v
+        return None
+    if any(len(x) != 1 or canon_of(x[0]) is None for x in worder):
         raise TranslateError(f'Output.as_keyvalue: value fields {worder}')
-    w_fields = [canon[x[0]] for x in worder]
-    # reader
+    w_fields = [canon_of(x[0]) for x in worder]
+    # reader: evaluate the statements before the `try` in both worlds
     ps = funcs['Output.parse']
-    src = ast.unparse(ps)
-    first_if = next((n for n in ps.body if isinstance(n, ast.If)), None)
-    if first_if is None or ast.unparse(first_if.test) != 'OUTPUT_SEP in prop.value':
-        raise TranslateError('Output.parse: `if OUTPUT_SEP in prop.value` expected')
-    if 'vals = prop.value.split(OUTPUT_SEP)' not in ast.unparse(first_if.body[1] if len(first_if.body) > 1 else first_if.body[0]):
-        raise TranslateError('Output.parse: split on OUTPUT_SEP expected')
-    else_split = [n for n in first_if.orelse if isinstance(n, ast.Assign) and ast.unparse(n.targets[0]) == 'vals']
-    m = re.fullmatch(r"prop\.value\.split\('(.)'\)", ast.unparse(else_split[0].value)) if else_split else None
-    if not m:
-        raise TranslateError('Output.parse: else-branch split')
-    r_comma = ord(m.group(1))
-    sep_flags = (ast.unparse(first_if.body[0]), ast.unparse(first_if.orelse[0]))
-    if sep_flags != ('sep = False', 'sep = True'):
-        raise TranslateError(f'Output.parse: comma_sep flags {sep_flags}')
-    unpack = [n for n in ast.walk(ps) if isinstance(n, ast.Assign) and isinstance(n.targets[0], ast.Tuple) and ast.unparse(n.value) == 'vals']
-    if len(unpack) != 2:
-        raise TranslateError('Output.parse: two unpackings of vals expected')
-    u1 = [ast.unparse(e) for e in unpack[0].targets[0].elts]
-    u2 = [ast.unparse(e) for e in unpack[1].targets[0].elts]
-    if u2 != [u1[0], u1[1], '*param_lst', u1[3], u1[4]] or f"{u1[2]} = '{chr(r_comma)}'.join(param_lst)" not in src:
-        raise TranslateError(f'Output.parse: recombination of extra separators {u2}')
-    mg = re.search(r'sep and len\(vals\) (>=|>) (\d+)', src)
-    if not mg:
-        raise TranslateError('Output.parse: recombination guard')
-    recombine_from = int(mg.group(2)) + (1 if mg.group(1) == '>' else 0)      # smallest number of pieces that is recombined
-    # which constructor argument each unpacked variable feeds
+    pre, tr = _prefix_until(ps.body, ast.Try)
     ctor = [n for n in ast.walk(ps) if isinstance(n, ast.Call) and ast.unparse(n.func) == 'cls']
     if len(ctor) != 1:
         raise TranslateError('Output.parse: constructor call')
+    flag_e = next((k.value for k in ctor[0].keywords if k.arg == 'comma_sep'), None)
+    if flag_e is None:
+        raise TranslateError('Output.parse: comma_sep is not passed to the constructor')
+    assert isinstance(tr, ast.Try)
+    unpack1 = [n for n in tr.body if isinstance(n, ast.Assign) and isinstance(n.targets[0], ast.Tuple)]
+    if len(tr.body) != 1 or len(unpack1) != 1:
+        raise TranslateError('Output.parse: the try body must be the exact unpacking of the pieces')
+    u1 = [ast.unparse(e) for e in unpack1[0].targets[0].elts]          # type: ignore[attr-defined]
+    world: dict[bool, tuple] = {}
+    syms: dict[bool, _Sym] = {}
+    for has in (True, False):
+        sy = _Sym('Output.parse', chr(esc), {}, has_esc=has)
+        sy.run(pre)
+        sp, fl = sy.ev(unpack1[0].value), sy.ev(flag_e)
+        if not sp or sp[0] != 'split':
+            raise TranslateError('Output.parse: the unpacked pieces are not prop.value.split(<known character>)')
+        if not fl or fl[0] != 'bool':
+            raise TranslateError('Output.parse: comma_sep flag is not decided by the separator in use')
+        world[has] = (ord(sp[1]), fl[1])
+        syms[has] = sy
+    r_esc, flag_esc = world[True]
+    r_comma, flag_comma = world[False]
+    # the recombination of extra separators in the except handler
+    if len(tr.handlers) != 1:
+        raise TranslateError('Output.parse: one except handler expected')
+    guard = next((n for n in tr.handlers[0].body if isinstance(n, ast.If)), None)
+    if guard is None or not (isinstance(guard.test, ast.BoolOp) and isinstance(guard.test.op, ast.And) and len(guard.test.values) == 2):
+        raise TranslateError('Output.parse: recombination guard `<comma form> and len(pieces) > N` expected')
+    flag_t = [x for x in guard.test.values if not isinstance(x, ast.Compare)]
+    cmp_t = [x for x in guard.test.values if isinstance(x, ast.Compare)]
+    if len(flag_t) != 1 or len(cmp_t) != 1 or syms[False].ev(flag_t[0]) != ('bool', True) or syms[True].ev(flag_t[0]) != ('bool', False):
+        raise TranslateError('Output.parse: the recombination must be guarded by the comma form')
+    c = cmp_t[0]
+    left, op, right = c.left, c.ops[0], c.comparators[0]
+    if isinstance(left, ast.Constant):        # N < len(v)  ->  len(v) > N
+        left, right = right, left
+        op = {ast.Lt: ast.Gt, ast.LtE: ast.GtE}.get(type(op), type(None))()
+    if not (isinstance(left, ast.Call) and ast.unparse(left.func) == 'len' and len(left.args) == 1
+            and (syms[False].ev(left.args[0]) or ('?',))[0] == 'split' and isinstance(right, ast.Constant) and isinstance(right.value, int)
+            and isinstance(op, (ast.Gt, ast.GtE))):
+        raise TranslateError(f'Output.parse: recombination guard {ast.unparse(c)}')
+    recombine_from = right.value + (1 if isinstance(op, ast.Gt) else 0)      # smallest number of pieces that is recombined
+    unpack2 = [n for n in guard.body if isinstance(n, ast.Assign) and isinstance(n.targets[0], ast.Tuple)]
+    if len(unpack2) != 1 or (syms[False].ev(unpack2[0].value) or ('?',))[0] != 'split':
+        raise TranslateError('Output.parse: the starred unpacking of the pieces is expected in the recombination branch')
+    u2 = [ast.unparse(e) for e in unpack2[0].targets[0].elts]          # type: ignore[attr-defined]
+    star = [x for x in u2 if x.startswith('*')]
+    if len(u1) != 5 or len(star) != 1 or u2 != [u1[0], u1[1], star[0], u1[3], u1[4]]:
+        raise TranslateError(f'Output.parse: recombination of extra separators {u2}')
+    rejoin = [n for n in guard.body if isinstance(n, ast.Assign) and ast.unparse(n.targets[0]) == u1[2]]
+    ok = len(rejoin) == 1 and isinstance(rejoin[0].value, ast.Call) and isinstance(rejoin[0].value.func, ast.Attribute) \
+        and rejoin[0].value.func.attr == 'join' and len(rejoin[0].value.args) == 1 and ast.unparse(rejoin[0].value.args[0]) == star[0][1:]
+    jc = syms[False].ev(rejoin[0].value.func.value) if ok else None          # type: ignore[attr-defined]
+    if not ok or not jc or jc[0] != 'str' or len(jc[1]) != 1 or ord(jc[1]) != r_comma:
+        raise TranslateError('Output.parse: the extra pieces must be re-joined with the separator they were split on')
+    # which constructor argument each unpacked variable feeds
     init_args = [a.arg for a in funcs['Output.__init__'].args.args][1:]
     canon_init = {'targ': 'target', 'inp': 'input', 'param': 'params', 'delay': 'delay', 'times': 'times', 'out': 'output'}
     feeds: dict[str, str] = {}
@@ -532,8 +682,103 @@ def output_seps(tree: ast.Module, funcs: dict[str, ast.FunctionDef]) -> dict:
             if nm_ in u1 and a in canon_init:
                 feeds[nm_] = canon_init[a]
     r_fields = [feeds.get(v, '?') for v in u1]
-    return {'esc': esc, 'w_comma': w_comma, 'r_comma': r_comma, 'w_fields': w_fields, 'r_fields': r_fields, 'n_exact': len(u1),
+    return {'esc': esc, 'w_comma': w_comma, 'w_esc': w_esc, 'r_comma': r_comma, 'r_esc': r_esc, 'flag_esc': flag_esc,
+            'flag_comma': flag_comma, 'w_fields': w_fields, 'r_fields': r_fields, 'n_exact': len(u1),
             'recombine_from': recombine_from}
+
+
+def _guard_form(e: ast.AST) -> tuple[str, str]:
+    """any(<v>.<m> for <v> in self._disp_verts) -> ('GAnyTruthy', m); any(<v>.<m> is not None for ...) -> ('GAnyNotNone', m);
+    a generator or a list comprehension, `bool(v.m)` allowed; anything else -> ('GOther', '')."""
+    if isinstance(e, ast.Call) and ast.unparse(e.func) == 'any' and len(e.args) == 1 and not e.keywords \
+            and isinstance(e.args[0], (ast.GeneratorExp, ast.ListComp)) and len(e.args[0].generators) == 1:
+        g = e.args[0].generators[0]
+        if isinstance(g.target, ast.Name) and not g.ifs and ast.unparse(g.iter) == 'self._disp_verts':
+            v, elt = g.target.id, e.args[0].elt
+            if isinstance(elt, ast.Call) and ast.unparse(elt.func) == 'bool' and len(elt.args) == 1:
+                elt = elt.args[0]
+            if isinstance(elt, ast.Attribute) and isinstance(elt.value, ast.Name) and elt.value.id == v:
+                return 'GAnyTruthy', elt.attr
+            if isinstance(elt, ast.Compare) and len(elt.ops) == 1 and isinstance(elt.ops[0], ast.IsNot) \
+                    and isinstance(elt.comparators[0], ast.Constant) and elt.comparators[0].value is None \
+                    and isinstance(elt.left, ast.Attribute) and isinstance(elt.left.value, ast.Name) and elt.left.value.id == v:
+                return 'GAnyNotNone', elt.left.attr
+    return 'GOther', ''
+
+
+def _falsy_defaults(tree: ast.Module) -> list[str]:
+    """Members of DispVertex whose value in a freshly made vertex is falsy: numeric literal 0, Vec4() with Vec4's fields all
+    defaulting to 0 and Vec4.__bool__ = any component non-zero, attrs.field(factory=Vec) (Vec() is the zero vector), None."""
+    classes = {n.name: n for n in tree.body if isinstance(n, ast.ClassDef)}
+    dv, v4 = classes.get('DispVertex'), classes.get('Vec4')
+    if dv is None or v4 is None:
+        raise TranslateError('DispVertex / Vec4 not found')
+    v4_fields = [n for n in v4.body if isinstance(n, ast.AnnAssign)]
+    v4_zero = bool(v4_fields) and all(isinstance(n.value, ast.Constant) and n.value.value == 0 for n in v4_fields)
+    v4_bool = next((n for n in v4.body if isinstance(n, ast.FunctionDef) and n.name == '__bool__'), None)
+    v4_truth = False
+    if v4_bool is not None:
+        rets = [n for n in ast.walk(v4_bool) if isinstance(n, ast.Return) and n.value is not None]
+        if len(rets) == 1:
+            attrs_ = {n.attr for n in ast.walk(rets[0].value) if isinstance(n, ast.Attribute)}
+            only = all(isinstance(n, (ast.Call, ast.Name, ast.BoolOp, ast.Or, ast.Attribute, ast.Load)) for n in ast.walk(rets[0].value))
+            v4_truth = only and attrs_ == {ast.unparse(n.target) for n in v4_fields}
+    out = []
+    for n in dv.body:
+        if not isinstance(n, ast.AnnAssign) or n.value is None:
+            continue
+        v = n.value
+        src = ast.unparse(v)
+        if (isinstance(v, ast.Constant) and (v.value is None or v.value == 0)) or (src == 'Vec4()' and v4_zero and v4_truth) \
+                or re.fullmatch(r'attrs\.field\(factory=Vec\b.*\)', src) or re.fullmatch(r'attrs\.field\(default=None\b.*\)', src, re.S):
+            out.append(ast.unparse(n.target))
+    return out
+
+
+def optional_groups(tree: ast.Module, funcs: dict[str, ast.FunctionDef]) -> list[dict]:
+    """`if` statements of Side._export_displacement (without else) that guard the writing of whole arrays."""
+    ed = funcs['Side._export_displacement']
+    params = {a.arg for a in ed.args.args}
+    falsy = _falsy_defaults(tree)
+    groups = []
+
+    def arrays_in(stmts: list[ast.stmt]) -> list[tuple[str, str]]:
+        out: list[tuple[str, str]] = []
+        for s in stmts:
+            for n in ast.walk(s):
+                if isinstance(n, ast.Call) and ast.unparse(n.func) == 'self._export_disp_rowset':
+                    a = n.args
+                    if len(a) >= 2 and isinstance(a[0], ast.Constant) and isinstance(a[1], ast.Constant):
+                        out.append((a[0].value, a[1].value))
+                    else:
+                        raise TranslateError('_export_displacement: rowset call without literal array / member names')
+            if isinstance(s, ast.For):
+                # inline arrays: block names written in the loop, member read from the vertices
+                m = re.fullmatch(r'range\((\d+)\)', ast.unparse(s.iter))
+                names = set()
+                for n in ast.walk(s):
+                    if isinstance(n, ast.JoinedStr):
+                        txt = ''.join(str(v.value) if isinstance(v, ast.Constant) else '{}' for v in n.values)
+                        for mm in re.finditer(r'([a-z_]+_)\{\}\n', txt):
+                            names.add(mm.group(1))
+                mem = {n.attr for n in ast.walk(s) if isinstance(n, ast.Attribute) and isinstance(n.value, ast.Name) and n.value.id == 'vert'}
+                if names and m and len(mem) == 1:
+                    for nm in sorted(names):
+                        out += [(f'{nm}{k}', next(iter(mem))) for k in range(int(m.group(1)))]
+        return out
+    for s in ed.body:
+        if isinstance(s, ast.If):
+            arrs = arrays_in(s.body)
+            if not arrs:
+                continue
+            if s.orelse:
+                raise TranslateError('_export_displacement: arrays written under if/else')
+            parts = s.test.values if (isinstance(s.test, ast.BoolOp) and isinstance(s.test.op, ast.And)) else [s.test]
+            opts = [p.id for p in parts if isinstance(p, ast.Name) and p.id in params]
+            rest = [p for p in parts if not (isinstance(p, ast.Name) and p.id in params)]
+            form, mem = _guard_form(rest[0]) if len(rest) == 1 else ('GOther', '')
+            groups.append({'arrays': arrs, 'form': form, 'member': mem, 'falsy': falsy, 'options': opts, 'test': ast.unparse(s.test)})
+    return groups
 
 
 def gen_fields() -> tuple[str, dict]:
@@ -545,9 +790,10 @@ def gen_fields() -> tuple[str, dict]:
     writers = row_writers(b)
     o = output_seps(tree, funcs)
     fw, fr = T.fixup_index_shape(funcs)
+    groups = optional_groups(tree, funcs)
     order = ['target', 'input', 'params', 'delay', 'times']
     lines = ['(* GENERATED by translate/c06_prog.py from src/srctools/vmf.py. Do not edit. *)',
-             'From Coq Require Import NArith List String.', 'From SV Require Import Fmt.VmfText Fmt.VmfFields.', 'Import ListNotations.',
+             'From Coq Require Import NArith List String.', 'From SV Require Import Fmt.VmfText Fmt.VmfFields Fmt.VmfGuard.', 'Import ListNotations.',
              'Open Scope N_scope.', '',
              f'(* Side._iter_disp_row ({form} form): prefix tested, characters skipped before int(), digit count accepted *)',
              f'Definition gen_rowreader : rowreader := mk_rowreader {T._coq_str(prefix)} {skip}%nat {lo}%nat '
@@ -558,14 +804,27 @@ def gen_fields() -> tuple[str, dict]:
              f'Definition gen_out_esc : N := {o["esc"]}.',
              f'Definition gen_out_write_comma : N := {o["w_comma"]}.',
              f'Definition gen_out_read_comma : N := {o["r_comma"]}.',
+             '(* separator written when comma_sep is false; character split on, and comma_sep flag given to the constructor, when',
+             '   the value holds ESC / does not *)',
+             f'Definition gen_out_write_esc : N := {o["w_esc"]}.',
+             f'Definition gen_out_read_esc : N := {o["r_esc"]}.',
+             f'Definition gen_out_flag_when_esc : bool := {"true" if o["flag_esc"] else "false"}.',
+             f'Definition gen_out_flag_when_comma : bool := {"true" if o["flag_comma"] else "false"}.',
              'Definition gen_out_write_order : list N := [' + '; '.join(str(order.index(x)) if x in order else '99' for x in o['w_fields']) + '].',
              'Definition gen_out_read_order : list N := [' + '; '.join(str(order.index(x)) if x in order else '99' for x in o['r_fields']) + '].',
              '(* number of pieces unpacked exactly; smallest number of comma-separated pieces that is recombined into five *)',
              f'Definition gen_out_exact_fields : nat := {o["n_exact"]}.',
              f'Definition gen_out_recombine_from : nat := {o["recombine_from"]}.',
+             '(* arrays of Side._export_displacement written under a guard: (block, vertex member) pairs, form of the guard, members',
+             '   of DispVertex whose default is falsy, export options and-ed to the guard *)',
+             'Definition gen_opt_groups : list optgroup := [' + '; '.join(
+                 'mk_optgroup [' + '; '.join(f'({T._coq_name(a)}, {T._coq_name(m)})' for a, m in g['arrays']) + ']%string '
+                 + (f'({g["form"]} {T._coq_name(g["member"])}%string)' if g['form'] != 'GOther' else 'GOther')
+                 + ' [' + '; '.join(T._coq_name(x) for x in g['falsy']) + ']%string [' + '; '.join(T._coq_name(x) for x in g['options']) + ']%string'
+                 for g in groups) + '].',
              '']
     return '\n'.join(lines), {'rowreader': {'prefix': prefix, 'skip': skip, 'min': lo, 'max': hi, 'form': form}, 'row_writers': writers,
-                              'output': o, 'fixup': [fw, fr]}
+                              'output': o, 'fixup': [fw, fr], 'optional_groups': groups}
 
 
 GEN['VmfFieldsCfg_gen'] = gen_fields
